@@ -28,14 +28,29 @@ func VerifC05_SelfMatch() {
 	topo.LoopCount = vxIntRange(0, 64)
 	topo.BranchCount = vxIntRange(0, 1<<20)
 	topo.HasDefer, topo.HasGo, topo.HasSelect, topo.HasPanic, topo.HasRange = vxBool(), vxBool(), vxBool(), vxBool(), vxBool()
-	topo.EntropyScore = vxF64Range(0, 8)
-	nk := vxPick(3)
+	symbolicProfile := vxParam("mode", 0) == 1
+	if symbolicProfile {
+		// the entropy term is an independent summand of the confidence: with the call/string profile
+		// symbolic the entropy is fixed, and vice versa (mode 0), so each run stays in one theory
+		topo.EntropyScore = 3.5
+	} else {
+		topo.EntropyScore = vxF64Range(0, 8)
+		topo.CallSignatures["net.Dial"] = 2
+		topo.StringLiterals = []string{"\"beacon\"", "ab"}
+	}
+	nk := 0
+	if symbolicProfile {
+		nk = vxPick(vxParam("maxkeys", 2) + 1)
+	}
 	for i := 0; i < nk; i++ {
 		key := vxConcretizeLen(vxStr(2))
 		vxAssume(vxAnd(vxAsciiLetters(key), len(key) > 0))
 		topo.CallSignatures[key] = vxIntRange(1, 1000)
 	}
-	nl := vxPick(3)
+	nl := 0
+	if symbolicProfile {
+		nl = vxPick(vxParam("maxlits", 2) + 1)
+	}
 	for i := 0; i < nl; i++ {
 		lit := vxConcretizeLen(vxStr(vxParam("litlen", 4)))
 		vxAssume(vxAsciiLetters(lit))
@@ -55,5 +70,7 @@ func VerifC05_SelfMatch() {
 	// exact mode of the JSON back end passes tolerance 0.0
 	r0 := MatchSignature(topo, "f", sig, 0.0)
 	vxAssert("self-match-with-zero-tolerance-argument", vxSameF64(r0.Confidence, 1.0))
-	vxCover("with-calls-and-patterns", len(sig.IdentifyingFeatures.RequiredCalls) > 0 && len(sig.IdentifyingFeatures.StringPatterns) > 0)
+	if symbolicProfile {
+		vxCover("with-calls-and-patterns", len(sig.IdentifyingFeatures.RequiredCalls) > 0 && len(sig.IdentifyingFeatures.StringPatterns) > 0)
+	}
 }
